@@ -78,6 +78,7 @@ Proof.
     exact (remove_ref_clr (setc s c _) (cref x) Er).
   - apply vf_cb_return.
   - destruct (Nat.eqb c 0); [reflexivity | apply vf_cancel_root].
+  - destruct (watch_step_spec s c) as [->|[x [y [_ [-> _]]]]]; reflexivity.
 Qed.
 
 Lemma nth_parked_spec l : forall k i0 a, nth_parked l k i0 = Some a -> i0 <= a /\ exists x, nth_error l (a - i0) = Some x /\ as_pc x = AParked.
